@@ -15,6 +15,7 @@ from frame.netlist.netlist_types import NamedHyperEdge
 from frame.netlist.yaml_write_netlist import dump_yaml_namededges
 from frame.utils import utils as U
 import tools.netgen.netgen as NG
+import tools.floorset_parser.floor_set_manager.manager as FSM
 import tools.rect.rect_io as RIO
 import tools.legalfloor.legalfloor as LF
 import tools.legalfloor.expression_tree as ET
@@ -34,14 +35,14 @@ STUBS = ['write_yaml -> tree in the symbolic run (concrete replays go through th
          'REAL ruamel parser, the tokens are substituted back; contract: str(float) is read back by ruamel as the same float',
          'random.gauss: arbitrary finite value', 'GEKKO objects only constructed (legaliser)']
 ASSUMPTIONS = ['R model; one axis symbolic for dies/allocations']
-NOT_DECIDED = ['FloorSet converter numeric content (numpy end to end)', 'number formatting', 'rect.main / legalfloor.main drivers']
-MUST_REACH = ['die', 'alloc', 'netgen', 'namededges', 'rect-solution', 'rect-getnetlist', 'legal-getnetlist']
+NOT_DECIDED = ['FloorSet converter: module/geometry content and density scaling (numpy end to end); only its connection part (_parse_connections, write_yaml_FPEF) is decided', 'number formatting', 'rect.main / legalfloor.main drivers']
+MUST_REACH = ['die', 'alloc', 'netgen', 'namededges', 'floorset-nets', 'rect-solution', 'rect-getnetlist', 'legal-getnetlist']
 DELTA = 0.01
 
 
 def setup():
     shimall.install_frame()
-    for mod in (NG, RIO, LF, ET, MD):
+    for mod in (NG, RIO, LF, ET, MD, FSM):
         symx.install(mod)
     ET.math_sqrt = symx.MATH.sqrt
     MD.math_sqrt = symx.MATH.sqrt
@@ -77,6 +78,8 @@ def cases(tier):
             for centers in (0, 1):
                 cs.append(dict(kind='netgen', topo='grid', n=r, m=c, centers=centers))
     cs.append(dict(kind='namededges'))
+    cs.append(dict(kind='floorset-nets', nb2b=2, np2b=2))
+    cs.append(dict(kind='floorset-nets', nb2b=1, np2b=1))
     for st in NC.structs(tier):   # Netlist.write_yaml is the writer the legalisation and placement stages use for their output files
         cs.append(dict(kind='netlist', struct=st))
     for s in NC.STRUCTS['quick'][:5]:
@@ -266,6 +269,38 @@ def body_namededges(I, case):
         I.prove('namededges:document-accepted', False)
         return
     I.prove('namededges:same-nets', And(*[And([m.name for m in e.modules] == b[0], Eq(e.weight, b[1])) for e, b in zip(net.edges, before)]))
+
+
+def body_floorset_nets(I, case):
+    """the connection part of the FloorSet converter (pure Python once the arrays are rows of numbers): block-to-block and pin-to-block
+    connections with arbitrary non-negative weights become nets that the netlist reader accepts and that say the same thing"""
+    inst = FSM.FloorSetInstance.__new__(FSM.FloorSetInstance)
+    b2b = [[0, 1, I.real('wb0', 0, 100)], [1, 2, I.real('wb1', 0, 100)]][:case['nb2b']]
+    p2b = [[0, 0, I.real('wp0', 0, 100)], [1, 2, I.real('wp1', 0, 100)]][:case['np2b']]
+    inst._fp_data = {'b2b_connectivity': b2b, 'p2b_connectivity': p2b}
+    inst.num_modules, inst._d, inst._nets = 3, None, []
+    inst._modules = {'M0': {'area': 4.0, 'center': [1.0, 1.0]}, 'M1': {'area': 2.0, 'center': [4.0, 1.0]}, 'M2': {'area': 3.0, 'center': [4.0, 4.0]},
+                     'T0': {'center': [0.0, 2.0], 'terminal': True}, 'T1': {'center': [5.0, 5.0], 'terminal': True}}
+    inst._width, inst._height = 5.0, 5.0
+    inst._parse_connections()
+    before = [(list(e.modules), e.weight) for e in inst.nets]
+    doc1 = write(I, FSM, lambda: inst.write_yaml_FPEF())
+    doc2 = write(I, FSM, lambda: inst.write_yaml_FPEF())
+    I.reached('floorset-nets')
+    I.prove('floorset:writing-twice-identical', NC.tree_equal(doc1, doc2) if I.mode == 'symbolic' else doc1 == doc2)
+    I.prove('floorset:nets-unaltered-by-writing', And(*[And(list(e.modules) == b[0], Eq(e.weight, b[1])) for e, b in zip(inst.nets, before)]))
+    try:
+        net = Netlist(doc1)
+    except AssertionError as e:
+        I.detail = f'rejected: {e}'
+        I.prove('floorset:emitted-netlist-accepted', False)
+        return
+    I.prove('floorset:same-nets-and-weights', len(net.edges) == len(before) and And(*[
+        And([m.name for m in e.modules] == b[0], Eq(e.weight, b[1])) for e, b in zip(net.edges, before)]))
+    I.prove('floorset:same-modules', [m.name for m in net.modules] == list(inst.modules))
+    # every connection of the source data is there, in order, with its own weight when positive
+    src = [([f'M{r[0]}', f'M{r[1]}'], r[2]) for r in b2b] + [([f'T{r[0]}', f'M{r[1]}'], r[2]) for r in p2b]
+    I.prove('floorset:nets-follow-the-connectivity-data', And(*[And(b[0] == s_[0], Implies(s_[1] > 0, Eq(b[1], s_[1]))) for b, s_ in zip(before, src)]))
 
 
 # ------------------------------------------------------------------------------------------ string-built netlists
